@@ -215,7 +215,8 @@ func (b *baseActor) PostInboxScheme(c context.Context, w http.ResponseWriter, r 
 	if !ok {
 		return true, fmt.Errorf("activity streams value is not an Activity: %T", asValue)
 	}
-	if activity.GetJSONLDId() == nil {
+	if id := activity.GetJSONLDId(); id == nil || !id.IsXMLSchemaAnyURI() {
+		// No id, or an id that is not an IRI.
 		w.WriteHeader(http.StatusBadRequest)
 		return true, nil
 	}
